@@ -383,7 +383,7 @@ fn minor_gcds(a: &Vec<Vec<BigInt>>, m: usize, n: usize) -> Vec<BigInt> {
 // ---------------------------------------------------------------------------------------------------------
 // one matrix: all requested flag subsets
 
-struct Out<R> { d: M<R>, t: [Option<M<R>>; 4] }
+struct Out<R> { d: M<R>, t: [Option<M<R>>; 4], obs_rank: usize, obs_factors: Vec<R> }
 
 fn call_snf<R: HR>(a: &M<R>, flags: [bool; 4], secs: u64) -> Option<Option<Out<R>>> where for<'a> &'a R: EucRingOps<R> {
     let mat = to_mat(&a.a, a.m, a.n);
@@ -391,13 +391,10 @@ fn call_snf<R: HR>(a: &M<R>, flags: [bool; 4], secs: u64) -> Option<Option<Out<R
         let res = snf(&mat, flags);
         let d = of_mat(res.result());
         let t = [res.p().map(of_mat), res.pinv().map(of_mat), res.q().map(of_mat), res.qinv().map(of_mat)];
-        // the observers rank() / factors() must describe the same diagonal
-        let k = d.m.min(d.n);
-        let nz: Vec<R> = (0..k).filter(|&i| !d.a[i][i].is_zero()).map(|i| d.a[i][i].clone()).collect();
-        let first_zero = (0..k).find(|&i| d.a[i][i].is_zero()).unwrap_or(k);
-        assert!(res.rank() == first_zero, "rank() observer");
-        assert!(res.factors().into_iter().cloned().collect::<Vec<R>>() == nz, "factors() observer");
-        Out { d, t }
+        // the observers rank() / factors() (compared with the diagonal by the caller)
+        let obs_rank = res.rank();
+        let obs_factors: Vec<R> = res.factors().into_iter().cloned().collect();
+        Out { d, t, obs_rank, obs_factors }
     })
 }
 
@@ -490,6 +487,8 @@ where for<'a> &'a R: EucRingOps<R> {
         let dg: Vec<R> = (0..k).map(|i| d.a[i][i].clone()).collect();
         let rk = dg.iter().position(|x| x.is_zero()).unwrap_or(k);
         s.oracle(dg[rk..].iter().all(|x| x.is_zero()), "non-zero diagonal entries come first", &inp, &m_txt(d));
+        s.oracle(out.obs_rank == rk && out.obs_factors == dg.iter().filter(|x| !x.is_zero()).cloned().collect::<Vec<R>>(),
+            "rank() and factors() describe the diagonal of result()", &inp, &format!("rank() = {} factors() = {}", out.obs_rank, out.obs_factors.iter().map(|x| x.show()).collect::<Vec<_>>().join(" ")));
         s.oracle(dg[..rk].iter().all(|x| x.normalizing_unit().is_one()), "non-zero diagonal entries are normalised", &inp, &m_txt(d));
         ck!((1..rk).all(|i| divides_w(&dg[i - 1], &dg[i])), "each diagonal entry divides the next", m_txt(d));
         // transforms
